@@ -499,6 +499,8 @@ type result struct {
 	Idx       int
 	Events    []string // tracer events on B for the message under test, in order
 	Delivered []string // hex hashes returned by B's Subscription.NextHeader attributed to this message
+	Delivered2 []string // the same for B's second (live) Subscription
+	DeliveredC []string // the same for B's third Subscription, cancelled before the messages were published
 	Relayed   bool     // C received the payload of the message under test
 	Penalised bool     // the sender's InvalidMessageDeliveries counter at B is > 0
 	VCalls    []string // hex hashes of headers the verifier was called with for this message
@@ -649,6 +651,11 @@ func runUnit(t *testing.T, u unit, specs []spec) []result {
 		must(t, sub.Start(ctx))
 		subB, err := sub.Subscribe()
 		must(t, err)
+		// two more Subscribe() calls on the receiving node: one stays live, one is cancelled before the message
+		subB2, err := sub.Subscribe()
+		must(t, err)
+		subB3, err := sub.Subscribe()
+		must(t, err)
 		topicP, err := psP.Join(topicID)
 		must(t, err)
 		topicC, err := psC.Join(topicID)
@@ -668,6 +675,8 @@ func runUnit(t *testing.T, u unit, specs []spec) []result {
 			}
 		}
 		time.Sleep(3 * time.Second) // subscriptions announced, mesh B<->C grafted
+		synctest.Wait()
+		subB3.Cancel()
 		synctest.Wait()
 
 		// the probe: a valid header the verifier always accepts, sent after the
@@ -872,6 +881,31 @@ func runUnit(t *testing.T, u unit, specs []spec) []result {
 				}
 			}
 		}
+		// what B's other Subscriptions hand out: the second live one, and the cancelled one
+		drain := func(s header.Subscription[*vhdr.Header], into func(r *result, hash string)) {
+			for {
+				nctx, ncancel := context.WithTimeout(ctx, time.Second)
+				h, err := s.NextHeader(nctx)
+				ncancel()
+				if err != nil {
+					return
+				}
+				hash := string(h.Hash())
+				if hash == probeHash {
+					continue
+				}
+				if i, ok := owner[hash]; ok {
+					into(&res[i], hx(h.Hash()))
+				} else {
+					stray++
+					if n == 1 {
+						into(&res[0], hx(h.Hash()))
+					}
+				}
+			}
+		}
+		drain(subB2, func(r *result, hash string) { r.Delivered2 = append(r.Delivered2, hash) })
+		drain(subB3, func(r *result, hash string) { r.DeliveredC = append(r.DeliveredC, hash) })
 		// what reached C
 		for {
 			nctx, ncancel := context.WithTimeout(ctx, time.Second)
@@ -901,6 +935,7 @@ func runUnit(t *testing.T, u unit, specs []spec) []result {
 
 		// teardown: every goroutine must be gone before the bubble ends
 		subB.Cancel()
+		subB2.Cancel()
 		subC.Cancel()
 		sctx, scancel := context.WithTimeout(context.Background(), time.Second)
 		_ = sub.Stop(sctx)
@@ -1065,8 +1100,17 @@ func optN(reg *vhdr.Registry, hexs []string) string {
 	return emit.Some(emit.N(reg.ID(b)))
 }
 
+func idList(reg *vhdr.Registry, hexs []string) string {
+	xs := make([]string, len(hexs))
+	for i, x := range hexs {
+		b, _ := hex.DecodeString(x)
+		xs[i] = emit.N(reg.ID(b))
+	}
+	return emit.List(xs)
+}
+
 func emitCases(t *testing.T, specs []spec, results []result, ran []bool, crashes, splits int) {
-	w := emit.NewWriter("Model.Subscriber Oracle.C11", "case11", "chk11")
+	w := emit.NewWriter("Model.Subscriber Oracle.C11", "case11s", "chk11s")
 	w.Rule = "complete table: payload variant (valid shapes, Bad flag, Validate-panics flag, truncations, trailing garbage, bad magic/flag/length, bit flip, random bytes, decode-panic byte, empty) " +
 		"x verifier outcome (nil, soft bare/wrapped/doubly wrapped/joined, hard bare/wrapped, plain, context error, hard-over-soft, soft-over-hard, panic) " +
 		"x verifier set before / set late / never set (node context ends), on the wire path A->B->C, one fresh gossipsub network per case; the same for the local path " +
@@ -1080,7 +1124,7 @@ func emitCases(t *testing.T, specs []spec, results []result, ran []bool, crashes
 		if !ran[i] {
 			if only >= 0 {
 				// replay of one case: keep the numbering, nothing was observed for the others
-				w.Add("Case11 PWire VdNone DecErr false VerNil VerNil SetBefore OReject None false true None None [true; false]", map[string]any{"skipped": true}, "skipped", false)
+				w.Add("Case11s (Case11 PWire VdNone DecErr false VerNil VerNil SetBefore OReject None false true None None [true; false]) []", map[string]any{"skipped": true}, "skipped", false)
 				continue
 			}
 			t.Fatalf("case %d was not run", i)
@@ -1179,6 +1223,10 @@ func emitCases(t *testing.T, specs []spec, results []result, ran []bool, crashes
 		term := fmt.Sprintf("Case11 %s %s %s %s %s %s %s %s %s %s %s %s %s %s", path, vd, dec, emit.B(valpanic),
 			verTerm(verOutcomes[sp.Ver]), decoyTerm, sp.Mode, verdict, optN(reg, r.Delivered), emit.B(r.Relayed), emit.B(r.Penalised),
 			optN(reg, r.VCalls), probe, emit.List(sets))
+		// the node's three Subscriptions: two live, one cancelled before the message
+		term = fmt.Sprintf("Case11s (%s) [SubObs false %s; SubObs false %s; SubObs true %s]", term, idList(reg, r.Delivered), idList(reg, r.Delivered2), idList(reg, r.DeliveredC))
+		w.Count("second live subscription got", fmt.Sprint(len(r.Delivered2)))
+		w.Count("cancelled subscription got", fmt.Sprint(len(r.DeliveredC)))
 		vdk := [...]string{"none", "hdr", "nilhdr", "other", "broadcast"}[sp.VD]
 		valid := "-"
 		if h := carriedHeader(sp); h != nil {
